@@ -251,7 +251,75 @@ def check_program(isa_key, combo, target_choice):
                 pr.append(("C12/unreferenced-byte-only-blocks-are-data", "block %d+%d is code" % (b.offset, b.size)))
         if kinds_in and any(k not in ("bytes",) for k in kinds_in) and isinstance(b, gtirb.DataBlock):
             pr.append(("C12/blocks-with-instructions-are-code", "block %d+%d is data" % (b.offset, b.size)))
+    if not pr:
+        for d in (create_ir_problems(res) or [])[:2]:
+            pr.append(("C12/create_ir-is-a-faithful-image-of-the-result", d))
     return pr, text
+
+
+def create_ir_problems(res):
+    """Assembler.Result.create_ir(): the IR is a faithful image of the result -- every block (the kept empty one at the end included),
+    byte, expression, edge, proxy and symbol of the result is in it, at the same place, and nothing dangles.  Requires a result that
+    refers to nothing outside itself (create_ir's own documented precondition: it raises ValueError otherwise)"""
+    import io
+    snap = {name: ([(b, b.offset, b.size) for b in sect.blocks], bytes(sect.data), dict(sect.symbolic_expressions), dict(sect.symbolic_expression_sizes))
+            for name, sect in res.sections.items()}
+    edges = list(res.cfg)
+    syms = [(s, s.referent, s.at_end) for s in res.symbols]
+    proxies = list(res.proxies)
+    try:
+        ir = res.create_ir()
+    except ValueError as ex:
+        if "outside of the result" in str(ex):
+            return None
+        return ["create_ir raised ValueError: %s" % str(ex)[:80]]
+    except Exception as ex:      # noqa
+        return ["create_ir raised %s: %s" % (type(ex).__name__, str(ex)[:80])]
+    pr = []
+    m = ir.modules[0]
+    for name, (blocks, data, exprs, sizes) in snap.items():
+        sects = [x for x in m.sections if x.name == name]
+        if len(sects) != 1 or len(sects[0].byte_intervals) != 1:
+            pr.append("section %s: %d sections in the IR" % (name, len(sects)))
+            continue
+        bi = next(iter(sects[0].byte_intervals))
+        if bytes(bi.contents) != data or bi.size != len(data):
+            pr.append("section %s: contents differ" % name)
+        for b, off, size in blocks:
+            if b.byte_interval is not bi or b.offset != off or b.size != size:
+                pr.append("section %s: the block at %d+%d of the result is %s" % (name, off, size, "not in the IR" if b.byte_interval is not bi else "at %d+%d" % (b.offset, b.size)))
+        if len(bi.blocks) != len(blocks):
+            pr.append("section %s: %d blocks in the result, %d in the IR" % (name, len(blocks), len(bi.blocks)))
+        if dict(bi.symbolic_expressions) != exprs:
+            pr.append("section %s: symbolic expressions differ" % name)
+        tab = m.aux_data["symbolicExpressionSizes"].data if "symbolicExpressionSizes" in m.aux_data else {}
+        for off, sz in sizes.items():
+            if tab.get(gtirb.Offset(bi, off)) != sz:
+                pr.append("section %s: expression size at %d not recorded" % (name, off))
+    live = set(m.byte_blocks) | set(m.proxies)
+    for e in edges:
+        if e not in ir.cfg:
+            pr.append("an edge of the result is not in ir.cfg")
+    for e in ir.cfg:
+        for n in (e.source, e.target):
+            if n not in live:
+                pr.append("ir.cfg: %s edge endpoint (%s) is not part of the module" % (e.label.type.name, type(n).__name__))
+    for s, r, at_end in syms:
+        if s.module is not m or s.referent is not r or s.at_end != at_end:
+            pr.append("symbol %s changed or is not in the module" % s.name)
+        if isinstance(r, gtirb.Block) and r not in live:
+            pr.append("symbol %s designates a block that is not part of the module" % s.name)
+    for p_ in proxies:
+        if p_ not in m.proxies:
+            pr.append("a proxy of the result is not registered in the module")
+    try:
+        buf = io.BytesIO()
+        ir.save_protobuf_file(buf)
+        buf.seek(0)
+        gtirb.IR.load_protobuf_file(buf)
+    except Exception as ex:      # noqa
+        pr.append("the IR does not survive save/load: %s: %s" % (type(ex).__name__, str(ex)[:80]))
+    return pr
 
 
 def c12_bounded(tier, seed):
@@ -266,7 +334,7 @@ def c12_bounded(tier, seed):
                       "C12/control-transfer-ends-its-block-with-its-edges", "C12/indirect-transfer-targets-a-registered-proxy",
                       "C12/direct-edge-leads-to-the-block-of-its-label", "C12/label-is-a-symbol-on-the-block-starting-at-its-position",
                       "C12/unreferenced-byte-only-blocks-are-data", "C12/blocks-with-instructions-are-code", "C12/block-without-a-terminator-falls-through-to-the-next-block", "C12/one-expression-per-symbolic-operand",
-                      "C12/expression-has-the-right-symbol-and-addend", "C12/expression-has-the-right-attributes", "C12/expression-size-recorded", "C12/supported-text-assembles"]
+                      "C12/expression-has-the-right-symbol-and-addend", "C12/expression-has-the-right-attributes", "C12/expression-size-recorded", "C12/supported-text-assembles", "C12/create_ir-is-a-faithful-image-of-the-result"]
         distinct = set()
         for isa_key in ISAS:
             for combo in programs(isa_key, maxlen, rnd, limit):
